@@ -109,6 +109,7 @@ package module
 
 //@ func CheckFilePath
 //@   ensures (result == nil) == PATHOK(path, 2)
+//@   ensures result == nil || fresh(result)
 //@   props C06
 
 //@ # ---------- major-version suffixes ----------
